@@ -12,10 +12,20 @@ KNOWN_FILE = VERIF / "known_findings.json"
 
 
 def load_known(prop: str) -> list[dict]:
-    if not KNOWN_FILE.exists():
-        return []
-    data = json.loads(KNOWN_FILE.read_text())
-    return [e for e in data.get("findings", []) if e.get("property") == prop and e.get("status") == "known"]
+    """known_findings.json is the committed list; known/<id>.json files are per-property work files merged into it."""
+    entries = []
+    if KNOWN_FILE.exists():
+        entries += json.loads(KNOWN_FILE.read_text()).get("findings", [])
+    kd = VERIF / "known"
+    if kd.is_dir():
+        for f in sorted(kd.glob("*.json")):
+            entries += json.loads(f.read_text()).get("findings", [])
+    seen, out = set(), []
+    for e in entries:
+        if e.get("property") == prop and e.get("status") == "known" and e["id"] not in seen:
+            seen.add(e["id"])
+            out.append(e)
+    return out
 
 
 class Run:
